@@ -79,7 +79,7 @@ c.ensures("submit/base-submit-under-the-submit-resize-lock",
 c.at_call(f"{PE}:{PPE}.submit", "holds-the-submit-resize-lock", "held(self._submit_resize_lock)", prop="C10")
 c.raises("submit/errors-of-the-base-submit-propagate-with-the-lock-released", "BaseException", post="log_tags()[-1] == 'release'")
 c.modifies("self._queue_count", "contents(self._pending_work_items)", "G.work_ids", "contents(self._processes)", "G.started", "G.pid_live", "G.proc_of_pid",
-           "self._executor_manager_thread", f"glob:{PE}.process_pool_executor_at_exit")
+           "self._executor_manager_thread", f"glob:{PE}.process_pool_executor_at_exit", "G.referent")
 
 # eventual guarantees of the other threads (manager, workers) the polling loops of this module rely on (assumptions, A-progress)
 P_JOBS = "len(self._pending_work_items) == 0"
